@@ -1,6 +1,6 @@
 (* C07 property theorems. This file contains only statements closed by
    [exact lemma] and Print Assumptions. *)
-From V Require Import Common.Base Common.Utf8 C07.LineCol C07.Builder C07.BuilderProofs C07.LineColAux C07.LineColProofs C07.Shift C07.ShiftAux C07.ShiftProofs C07.Vlq C07.SpecMap C07.Mappings C07.VlqProofs C07.MappingsProofs C07.FindProofs C07.JoinProofs C07.SpecBuilder C07.BuilderExact C07.JoinAll C07.JoinAllProofs.
+From V Require Import Common.Base Common.Utf8 C07.LineCol C07.Builder C07.BuilderProofs C07.LineColAux C07.LineColProofs C07.Shift C07.ShiftAux C07.ShiftProofs C07.Vlq C07.SpecMap C07.Mappings C07.VlqProofs C07.MappingsProofs C07.FindProofs C07.JoinProofs C07.SpecBuilder C07.BuilderExact C07.JoinAll C07.JoinAllProofs C07.Pipeline.
 
 (* encodeVLQ/DecodeVLQ round trip, every integer, arbitrary trailing bytes *)
 Theorem vlq_roundtrip : forall v rest, DecodeVLQ (encodeVLQ v ++ rest) = Some (v, rest).
@@ -115,7 +115,7 @@ Theorem builder_mappings_exact : forall text cover evs fin,
     fno = option_map Z.of_nat (first_name_off ops 0 state0 0) /\
     names = snames /\ fcol = scol /\
     endst = snd (emit ops 0 state0) /\
-    sorted_ops ops 0.
+    sorted_ops ops 0 /\ end_col ops 0 <= fcol.
 Proof. exact builder_exact_all. Qed.
 Print Assumptions builder_mappings_exact.
 
@@ -150,3 +150,27 @@ Theorem sources_table_first_appearance : forall rs,
   (forall r, In r rs -> j_null r = false -> tbl_find (j_src r) t <> None).
 Proof. exact sources_table_all. Qed.
 Print Assumptions sources_table_first_appearance.
+
+(* End to end over the modelled code: n source files, each with its original
+   text, its AddSourceMapping calls (locs at character boundaries, at least one
+   call) and its output text, placed by the linker at offsets that are
+   positions (no input source maps: coverLinesWithoutMappings on), any
+   well-formed shift list.  Every builder run succeeds, the joining loop of
+   generateSourceMapForChunk does not panic, Finalize succeeds, and the final
+   mappings string denotes exactly: for every file in order, the mappings
+   specified by SpecBuilder.v (generated position of the output so far |->
+   UTF-16 line/column of loc in the original text, name index, cover mappings)
+   moved to the file's place in the chunk, source index = the file's "sources"
+   index, name index + number of names of earlier files, and every generated
+   column moved by the shift that applies at that position.
+   Composes builder_mappings_exact, join_all_decodes, finalize_moves_columns. *)
+Theorem pipeline_exact : forall (sfs : list src_file) sh,
+  Forall src_ok sfs -> shifts_wf sh ->
+  exists rs m result,
+    map built_res sfs = map Some rs /\
+    join_all rs = Some m /\
+    Finalize sh m = Some result /\
+    spec_decode result =
+      Some (map (shift_abs sh) (joined_abs (assign_sources rs [] 0) (map spec_file sfs) (0, 0) 0)).
+Proof. exact pipeline_exact_all. Qed.
+Print Assumptions pipeline_exact.
